@@ -102,8 +102,20 @@ func (w *WalletManager) constructTxIn(inputs []*TxIn, lockTime uint64) (*wire.Ms
 		switch {
 		case pks.IsStaking():
 			txIn.Sequence = pks.Maturity()
-		case pks.IsBinding() && forks.EnforceMASSIP0002WarmUp(block.Height):
-			txIn.Sequence = consensus.MASSIP0002BindingLockedPeriod
+		case pks.IsBinding():
+			// a parent that is still unconfirmed has no block yet: it confirms in the next
+			// block at the earliest
+			parentHeight := uint64(0)
+			if block != nil {
+				parentHeight = block.Height
+			} else if syncedTo, err := w.SyncedTo(); err == nil {
+				parentHeight = syncedTo + 1
+			} else {
+				return nil, nil, massutil.ZeroAmount(), err
+			}
+			if forks.EnforceMASSIP0002WarmUp(parentHeight) {
+				txIn.Sequence = consensus.MASSIP0002BindingLockedPeriod
+			}
 		default:
 		}
 
